@@ -8,11 +8,20 @@ Facet 1 (affine law).  TLC enumerates the Gaussian lattice (four input forms x s
   designs and emits mean, data, precision.  The replayer hands sample() a stub generator whose normal draws are 0 and
   the basis vectors e_i, reads off mean and L from the REAL outputs and checks the law against the precision of the
   object's OWN log-density (TLC's precision, cross-checked with the quadratic form of logpdf by polarisation).
+Facet 1c (structure x storage format x threshold side).  For every input form the specification supplies a matrix of each
+  structure (diagonal, lower / upper triangular, tridiagonal non-triangular, full) with its exact precision; `format` (ndarray,
+  csr, csc, dia, coo, bsr, lil) and the side of cuqi.config.MIN_DIM_SPARSE are dimensions of the emitted case that the expected
+  values do not depend on (FsLaw; deviation dia_as_diagonal refuted).  The replayer only chooses the container; a refusal of
+  the library is an observation, a wrong mean / covariance a mismatch; every cell must be replayed or observed as refused.
 Facet 2 (wiring).  For the univariate families TLC emits the base request (generator, arguments, size) and the exact
   expected result for scripted base values; stub generators / recording scipy.stats .rvs compare.
 Facet 4 (Reassign).  One object; TLC explores Evaluate / Assign(unit) in the cyclic orders of the units of every start
   configuration of facets 1 and 2 and emits the expected case after every assignment; the replayer assigns through the
   public attributes and repeats the observation of facet 1 / 2 on the SAME object (cold, warm, after each assignment).
+Facet 5 (Siblings).  ONE conditional object (callable mean / matrix / precision / scalar parameters) is conditioned to the two
+  configurations of a Reassign pair, both copies stay alive; TLC enumerates the interleavings of Condition(A), Condition(B),
+  Sample(.), use of the original (SibOwnDraw; deviation shared_derived refuted); every draw is judged against the case of the
+  sampled copy's OWN configuration (signatures siblings/<observer signature>/order=ABA/walk=.../at=<k><copy>/cond=<callables>).
 Facet 3 (streams).  TLC explores the stream state machine and emits behaviours; each is executed on real
   distributions with real RandomState / Generator objects: global state digests before/after, equal generator
   states => equal draws, return types, conditional distributions refuse.
@@ -34,10 +43,18 @@ META = {
              "matrix-valued input (other scaling, other triangle) of one Gaussian / Lognormal, mean and precision of one GMRF are "
              "replaced through the public attributes, cold / warm / sampling after each assignment; base request, result and "
              "affine law must be those of a freshly built object with the current parameters. scipy-based families are observed "
-             "at the rvs method of the scipy distribution class (module function, frozen and kept frozen objects alike)."),
+             "at the rvs method of the scipy distribution class (module function, frozen and kept frozen objects alike). "
+             "Facet 1c: every Gaussian input form x structure of the matrix handed in (diagonal, lower, upper, tridiagonal non-triangular, "
+             "full; exact matrices and precisions from the spec, FsLaw) x storage format (ndarray, csr, csc, dia, coo, bsr, lil) x side of "
+             "cuqi.config.MIN_DIM_SPARSE is read off affinely (deviation dia_as_diagonal refuted; refusals observed, every cell "
+             "replayed or observed). Facet 5 (Siblings: Condition(A), Condition(B), Sample, Original on ONE conditional object, "
+             "invariant SibOwnDraw, deviation shared_derived refuted): conditional Gaussian / Lognormal / GMRF / univariate families "
+             "conditioned to both configurations of every Reassign pair, both copies alive, sampled A, B, A (and every other emitted "
+             "interleaving, rotating) around a use of the unconditioned original; each draw must be that of its own configuration."),
     "note": ("No statistics: the law of numpy/scipy base generators is trusted; ModifiedHalfNormal acceptance envelopes "
              "are not modelled (parameter wiring and stream behaviour only). Bounded sizes (Gaussian dim <= 3 with "
-             "MIN_DIM_SPARSE lowered to 2, plus diagonal forms at the real threshold 75/76; GMRF n <= 6/8 in 1-D, "
+             "MIN_DIM_SPARSE lowered to 2, plus diagonal forms at the real threshold 75/76; structure x format lattice in dim 4 (and 3) "
+             "with MIN_DIM_SPARSE = dim / dim - 1; GMRF n <= 6/8 in 1-D, "
              "n <= 3/4 in 2-D). Support of numpy Generator objects and of 2-D periodic sampling is not documented and "
              "only observed."),
     "technique": ("TLA+ spec (Sampling, extending DiffOps) model-checked with TLC; emitted cases and behaviours replayed "
@@ -206,10 +223,12 @@ class ReadOff:
         return self.transform(a) if self.transform else a
 
 
-def read_affine(ctx, sigtail, case, dist, N, transform=None, tol=1e-9, use_global=False):
+def read_affine(ctx, sigtail, case, dist, N, transform=None, tol=1e-9, use_global=False, refusal=None):
     """Returns (mean_obs (dim,), L (dim, m_total)) or None after having reported a mismatch.
     tol: accuracy of the linear solves behind the sampler (relative to the magnitude of the output).
-    use_global: sample(N) without a generator, numpy's module-level functions scripted (the default code path)."""
+    use_global: sample(N) without a generator, numpy's module-level functions scripted (the default code path).
+    refusal: callable(exception) - the FIRST call (all normal draws zero) raising inside the library is a refusal of the
+    input (an observation of the caller), not a mismatch; a later call raising stays a mismatch (value-dependent failure)."""
     from cuqiverif.script_rng import global_state_digest
     from cuqiverif.script_rng import ScriptError
     from cuqiverif.core import MachineryError
@@ -222,6 +241,9 @@ def read_affine(ctx, sigtail, case, dist, N, transform=None, tol=1e-9, use_globa
         except (NotImplementedError, ScriptError, MachineryError):
             raise                       # documented refusal (handled by the caller) / machinery
         except Exception as e:          # the sampler itself fails on a documented configuration
+            if refusal is not None and blocks is None:
+                refusal(e)
+                return None
             ctx.mismatch("sample_raises/" + sigtail, case, "sample(%d%s) raises: %r" % (N, "" if use_global else ", rng=generator", e))
             return None
     ro.call = guarded
@@ -315,10 +337,14 @@ def check_law(ctx, sigtail, case, mean_spec, P, full_rank, got, tol):
 
 # --------------------------------------------------------------------------------------------- facet 1a
 def gauss_sig(c, N=None, fmt=None):
-    s = "gauss/wrap=%s/form=%s/shape=%s/tri=%s/dim=%d/scaled=%d/mform=%s" % (
-        c["wrap"], c["form"], c["shape"], c["tri"], c["dim"], int(bool(c["scaled"])), c["mform"])
-    if fmt:
-        s += "/fmt=" + fmt
+    if c.get("kind") == "gfs":      # facet 1c: structure x storage format x side of the sparse threshold
+        s = "gfs/wrap=%s/form=%s/structure=%s/format=%s/side=%s/dim=%d" % (
+            c["wrap"], c["form"], c["structure"], c["format"], c["side"], c["dim"])
+    else:
+        s = "gauss/wrap=%s/form=%s/shape=%s/tri=%s/dim=%d/scaled=%d/mform=%s" % (
+            c["wrap"], c["form"], c["shape"], c["tri"], c["dim"], int(bool(c["scaled"])), c["mform"])
+        if fmt:
+            s += "/fmt=" + fmt
     if N is not None:
         s += "/N=%d" % N
     return s
@@ -382,32 +408,57 @@ def run_gauss(ctx, c, Ns=(1, 3)):
             observe_gauss(ctx, c, dist, fmt, Ns)
 
 
-def observe_gauss(ctx, c, dist, fmt, Ns, tag="", globals_too=True):
-    """affine read-off of one real Gaussian / Lognormal object against the case c (tag: history of the object, Reassign facet)"""
+def gauss_density(ctx, c, dist, sig0, refusal=None):
+    """precision of the object's own density (polarisation), compared with the specification's; returns the precision the
+    sampler is judged against (None: the density evaluation was refused and `refusal` was told)"""
     dim = c["dim"]
     P = fmat(c["prec"])
     mean = fvec(c["mean"])
-    sig0 = gauss_sig(c, fmt=fmt) + tag
-    # the precision of the object's own density
     if c["wrap"] == "lognormal":
         def logdens(y, d=dist):
             return float(np.ravel(d.logpdf(np.exp(y)))[0]) + float(np.sum(y))
     else:
         logdens = gaussian_logdens(dist)
-    with quiet():
-        P_own = own_precision(logdens, mean, dim)
+    try:
+        with quiet():
+            P_own = own_precision(logdens, mean, dim)
+    except Exception as e:
+        if refusal is None:
+            raise
+        refusal(e)
+        return None
     if not np.allclose(P_own, P, rtol=1e-7, atol=1e-9 * max(1.0, np.abs(P).max())):
         ctx.mismatch("density/" + sig0, c, "quadratic form of the object's own log-density is not the precision "
                      "the specification assigns to this input", P, P_own)
-        P_use = P_own      # judge the sampler against the object's own density
-    else:
-        P_use = P
+        return P_own       # judge the sampler against the object's own density
+    return P
+
+
+def observe_gauss(ctx, c, dist, fmt, Ns, tag="", globals_too=True, density=True, refusal=None):
+    """affine read-off of one real Gaussian / Lognormal object against the case c (tag: history of the object, Reassign facet)
+    density: evaluate the object's own density first (False: the sampling path alone, judged against the spec's precision);
+    refusal: callable(where, exception) - the library refusing this input is an observation (facet 1c)"""
+    dim = c["dim"]
+    mean = fvec(c["mean"])
+    sig0 = gauss_sig(c, fmt=fmt) + tag
+    P_use = fmat(c["prec"])
+    if density:
+        P_use = gauss_density(ctx, c, dist, sig0, (lambda e: refusal("density", e)) if refusal else None)
+        if P_use is None:
+            P_use = fmat(c["prec"])
     for N in Ns:
         sig = gauss_sig(c, N, fmt) + tag
         tf = np.log if c["wrap"] == "lognormal" else None
         for use_global in ((False, True) if globals_too else (False,)):      # generator given / not given (the default code path)
             sg = sig + ("/rng=none" if use_global else "")
-            got = read_affine(ctx, sg, c, dist, N, tf, use_global=use_global)
+            try:
+                got = read_affine(ctx, sg, c, dist, N, tf, use_global=use_global,
+                                  refusal=(lambda e, sg=sg: refusal("sample N=" + sg.split("/N=")[1], e)) if refusal else None)
+            except NotImplementedError as e:
+                if refusal is None:
+                    raise
+                refusal("sample N=" + sg.split("/N=")[1], e)
+                got = None
             if got is None:
                 continue
             ok = check_law(ctx, sg, c, mean, P_use, True, got, 1e-9)
@@ -447,6 +498,78 @@ def run_bigdiag(ctx, c, Ns=(1, 2)):
             if check_law(ctx, sg, c, mean, P, True, got, 1e-9) and got[1].shape == (dim, dim) and c["form"] == "sqrtprec":
                 if not np.allclose(got[1], np.diag(fvec(c["ldiag"])), rtol=1e-9, atol=1e-12):
                     ctx.mismatch("exact/" + sg, c, "draw is not mean + sqrtprec^-1 e", fvec(c["ldiag"]), np.diag(got[1]))
+
+
+# --------------------------------------------------------------------------------------------- facet 1c
+FS_FORMS = ("cov", "prec", "sqrtcov", "sqrtprec")
+FS_FORMATS = ("ndarray", "csr", "csc", "dia", "coo", "bsr", "lil")
+FS_STRUCTS = ("diag", "lower", "upper", "banded", "full")
+FS_SIDES = ("below", "above")
+
+
+def fs_cells():
+    """the (form, format, structure, threshold side) cells of the specification (a covariance / precision is symmetric:
+    no triangular structure) - every one must be replayed or observed as refused (vacuity guard)"""
+    return [(f, fm, st, sd) for f in FS_FORMS for fm in FS_FORMATS for st in FS_STRUCTS for sd in FS_SIDES
+            if f.startswith("sqrt") or st in ("diag", "banded", "full")]
+
+
+def fs_container(fmt, M):
+    """the ONLY choice of the harness in facet 1c: the container of the specification's matrix"""
+    import scipy.sparse as sp
+    M = np.array(M, dtype=float)
+    if fmt == "ndarray":
+        return M
+    maker = getattr(sp, fmt + "_matrix", None)
+    if maker is None:
+        machinery("scipy.sparse has no %s_matrix" % fmt)
+    return maker(M)
+
+
+def run_gfs(ctx, c, Ns=(1, 3), cells=None):
+    """Structure x storage format x side of cuqi.config.MIN_DIM_SPARSE: the affine read-off of facet 1a on the matrix of the
+    specification in the container `format`.  A refusal of the library (construction, density or sampling raises) is an
+    observation; a wrong mean / covariance is a mismatch."""
+    cells = {} if cells is None else cells
+    key = (c["form"], c["format"], c["structure"], c["side"])
+    sig0 = gauss_sig(c)
+    ckey = "%s/dim=%d" % ("/".join(key), c["dim"]) + ("" if c["wrap"] == "gaussian" else "/wrap=" + c["wrap"])
+    refused = []
+
+    def refusal(where, e):
+        refused.append(where)
+        ctx.observations.setdefault("gfs_refused", {}).setdefault(ckey, "%s: %s" % (where, repr(e)[:140]))
+    mean = fvec(c["mean"])
+    X = fs_container(c["format"], fmat(c["data"]))
+    with min_dim_sparse(int(c["thr"])):
+        try:
+            with quiet():
+                dist = build_gauss(c, mean, X, {})
+        except Exception as e:
+            refusal("construct", e)
+            if c["wrap"] == "gaussian":
+                cells.setdefault(key, set()).add("refused")
+            return
+        ctx.case(("gfs", sig0), facet="affine_gaussian_format_structure")
+        if c["wrap"] == "gaussian":
+            st = ctx.observations.setdefault("gfs_storage_of_sqrtprec", {})
+            k2 = "%s/%s/%s" % (c["form"], c["format"], c["side"])
+            name = type(dist.sqrtprec).__name__
+            if name not in st.setdefault(k2, name).split("|"):
+                st[k2] += "|" + name
+        observe_gauss(ctx, c, dist, None, Ns, refusal=refusal)
+    if c["wrap"] == "gaussian":
+        n_obs = 2 * len(Ns)
+        cells.setdefault(key, set()).add("refused" if len([w for w in refused if w.startswith("sample")]) == n_obs else "replayed")
+
+
+def check_fs_cells(ctx, cells):
+    missing = [k for k in fs_cells() if not cells.get(k)]
+    if missing:
+        machinery("vacuous: %d (form, format, structure, threshold side) cells of facet 1c were neither replayed nor observed as "
+                  "refused, e.g. %r" % (len(missing), missing[:3]))
+    ctx.observations["gfs_cells"] = {"replayed": sum(1 for k in fs_cells() if "replayed" in cells[k]),
+                                     "refused": sorted("/".join(k) for k in fs_cells() if "replayed" not in cells[k])}
 
 
 # --------------------------------------------------------------------------------------------- facet 1b
@@ -922,6 +1045,361 @@ def run_reassign(ctx, cases):
     return n
 
 
+# ----------------------------------------------------------------------------------------------- facet 5 (Siblings)
+class SigProxy:
+    """Run context seen by the facet-1 / facet-2 observers while they work for the Siblings facet: mismatch signatures become
+    siblings/<signature of the observer><suffix naming the walk>, cases are counted under the facet."""
+
+    def __init__(self, ctx, suffix, facet, label):
+        self._ctx, self._suffix, self._facet, self._label = ctx, suffix, facet, label
+
+    def mismatch(self, signature, case, what, expected=None, observed=None, detail=None):
+        return self._ctx.mismatch("siblings/" + signature + self._suffix, case, what, expected, observed, detail)
+
+    def case(self, key, nontrivial=True, facet=None):
+        return self._ctx.case(("siblings", self._label, self._suffix, key), nontrivial, self._facet)
+
+    def __getattr__(self, name):
+        return getattr(self._ctx, name)
+
+
+def _lam(name):
+    return eval("lambda c_%s: c_%s" % (name, name))
+
+
+def walk_id(ops):
+    return ".".join({"condition": "c", "sample": "s", "original": ""}[o["op"]] + o["who"] for o in ops)
+
+
+SIB_CANONICAL = "cA.cB.sA.O.sB.sA"      # sample A, use the original, sample B, sample A again - both copies alive throughout
+
+
+def _sib_observe(ctx, what, label, e=None):
+    ob = ctx.observations.setdefault(what, {})
+    ob[label] = ob.get(label, 0) + 1
+    if e is not None:
+        ctx.observations.setdefault(what + "_example", "%s: %s" % (label, repr(e)[:160]))
+
+
+def sib_original(ctx, O, label, dim):
+    """the unconditioned original is used while its conditioned copies are alive: sampling must be refused (observed if it is
+    not: facet 3 judges that), its conditioning variables are listed, a density evaluation is attempted"""
+    try:
+        with quiet():
+            O.sample(2, rng=np.random.RandomState(3))
+        _sib_observe(ctx, "siblings_original_was_sampled", label)
+    except Exception:
+        _sib_observe(ctx, "siblings_original_refused_to_sample", label.split("/")[0])
+    for f in (lambda: O.get_conditioning_variables(), lambda: O.logd(np.zeros(dim)), lambda: O.dim):
+        try:
+            with quiet():
+                f()
+        except Exception:
+            pass
+
+
+class SibWiring:
+    sub = "wiring"
+
+    def __init__(self, rc, n):
+        self.rc, self.n = rc, n
+        self.cfg = {"A": rc["from"], "B": rc["trail"][n - 1]["expect"]}
+        self.names = [t["assign"][0] for t in rc["trail"][:n]]
+        self.family = rc["from"]["family"]
+        self.label = "%s/cond=%s" % (wiring_sig(rc["from"]), "+".join(sorted(self.names)))
+        self.dim = rc["from"]["dim"]
+
+    def formats(self):
+        return [None]
+
+    @staticmethod
+    def _val(c, name):
+        q = [x for x in c["params"] if x["name"] == name][0]
+        v = fvec(q["val"])
+        return float(v[0]) if q["passed"] == "scalar" else v
+
+    def build(self, fmt):
+        import cuqi
+        frm = self.cfg["A"]
+        args = {q["name"]: (_lam(q["name"]) if q["name"] in self.names else self._val(frm, q["name"])) for q in frm["params"]}
+        return getattr(cuqi.distribution, self.family)(**args, geometry=self.dim)
+
+    def condition(self, O, w, fmt):
+        return O(**{"c_" + nm: self._val(self.cfg[w], nm) for nm in self.names})
+
+    def case(self, w, walk, fmt):
+        return dict(self.cfg[w], kind="siblings_step", sib={"sub": "wiring", "rc": self.rc, "n": self.n, "walk": walk, "fmt": fmt})
+
+    def sample(self, p, obj, w, case, fmt, k):
+        run_wiring(p, case, dist=obj)
+        if k != 2:
+            run_wiring(p, case, use_global=True, dist=obj)
+
+    def final(self, p, obj, w, case, fmt):
+        pass
+
+    def probe(self, obj, w):
+        pass
+
+
+class SibGauss:
+    sub = "gauss"
+
+    def __init__(self, rc, n):
+        self.rc, self.n = rc, n
+        self.cfg = {"A": rc["from"], "B": rc["trail"][n - 1]["expect"]}
+        self.names = [t["assign"][0] for t in rc["trail"][:n]]
+        frm = rc["from"]
+        self.dim = frm["dim"]
+        self.attr = "cov" if frm["wrap"] == "lognormal" else frm["form"]
+        self.family = "Lognormal" if frm["wrap"] == "lognormal" else "Gaussian"
+        self.label = "%s/cond=%s" % (gauss_sig(frm), "+".join(sorted(self.names)))
+
+    def formats(self):
+        frm = self.cfg["A"]
+        if frm["wrap"] == "lognormal" and frm["mform"] == "scalar" and frm["shape"] == "scalar" and self.dim > 1:
+            return []
+        return [g[0] for g in gauss_inputs(frm)]
+
+    def _inp(self, w, fmt):
+        return [g for g in gauss_inputs(self.cfg[w]) if g[0] == fmt][0]
+
+    def build(self, fmt):
+        import cuqi
+        _, mean_arg, data, kw = self._inp("A", fmt)
+        mean_p = _lam("mean") if "mean" in self.names else mean_arg
+        mat_p = _lam(self.attr) if self.attr in self.names else data
+        if self.family == "Lognormal":
+            return cuqi.distribution.Lognormal(mean_p, mat_p, geometry=self.dim)
+        return cuqi.distribution.Gaussian(mean=mean_p, **{self.attr: mat_p}, geometry=self.dim)
+
+    def condition(self, O, w, fmt):
+        _, mean_arg, data, kw = self._inp(w, fmt)
+        vals = {}
+        if "mean" in self.names:
+            vals["c_mean"] = mean_arg
+        if self.attr in self.names:
+            vals["c_" + self.attr] = data
+        return O(**vals)
+
+    def case(self, w, walk, fmt):
+        return dict(self.cfg[w], kind="siblings_step", sib={"sub": "gauss", "rc": self.rc, "n": self.n, "walk": walk, "fmt": fmt})
+
+    def sample(self, p, obj, w, case, fmt, k):
+        p.case(("gauss", gauss_sig(case, fmt=fmt)))
+        observe_gauss(p, case, obj, fmt, (2,), globals_too=(k == 3), density=False)
+
+    def final(self, p, obj, w, case, fmt):
+        gauss_density(p, case, obj, gauss_sig(case, fmt=fmt))
+
+    def probe(self, obj, w):
+        m = fvec(self.cfg[w]["mean"])
+        obj.logpdf(np.exp(m)) if self.family == "Lognormal" else gaussian_logdens(obj)(m)
+
+
+class SibGmrf:
+    sub = "gmrf"
+
+    def __init__(self, rc, n):
+        self.rc, self.n = rc, n
+        self.cfg = {"A": rc["from"], "B": rc["trail"][n - 1]["expect"]}
+        self.names = [t["assign"][0] for t in rc["trail"][:n]]
+        frm = rc["from"]
+        self.dim = frm["dim"]
+        self.family = "GMRF"
+        self.label = "%s/cond=%s" % (gmrf_key(frm), "+".join(sorted(self.names)))
+        self.tol = 1e-9 if frm["bc"] == "zero" else 1e-6
+
+    def formats(self):
+        return [None]
+
+    def _geom(self):
+        import cuqi
+        frm = self.cfg["A"]
+        return cuqi.geometry.Continuous1D(frm["n"]) if frm["pd"] == 1 else cuqi.geometry.Image2D((frm["n"], frm["n"]))
+
+    def build(self, fmt):
+        import cuqi
+        frm = self.cfg["A"]
+        mean_p = _lam("mean") if "mean" in self.names else np.array(frm["mean"], dtype=float)
+        prec_p = _lam("prec") if "prec" in self.names else float(frm["delta"])
+        return cuqi.distribution.GMRF(mean_p, prec_p, bc_type=frm["bc"], order=frm["order"], geometry=self._geom())
+
+    def condition(self, O, w, fmt):
+        c = self.cfg[w]
+        vals = {}
+        if "mean" in self.names:
+            vals["c_mean"] = np.array(c["mean"], dtype=float)
+        if "prec" in self.names:
+            vals["c_prec"] = float(c["delta"])
+        return O(**vals)
+
+    def case(self, w, walk, fmt):
+        return dict(self.cfg[w], kind="siblings_step", sib={"sub": "gmrf", "rc": self.rc, "n": self.n, "walk": walk, "fmt": fmt})
+
+    def sample(self, p, obj, w, case, fmt, k):
+        key = gmrf_key(case)
+        mean = np.array(case["mean"], dtype=float)
+        P = float(case["delta"]) * fmat(case["P0"])
+        p.case(("gmrf", key))
+        for use_global in ((False, True) if k == 3 else (False,)):
+            sg = key + "/N=2" + ("/rng=none" if use_global else "")
+            try:
+                got = read_affine(p, sg, case, obj, 2, tol=self.tol, use_global=use_global)
+            except NotImplementedError:
+                got = None
+            if got is not None:
+                check_law(p, sg, case, mean, P, case["rank"] == self.dim, got, self.tol)
+
+    def probe(self, obj, w):
+        obj.logpdf(np.array(self.cfg[w]["mean"], dtype=float))
+
+    def final(self, p, obj, w, case, fmt):
+        mean = np.array(case["mean"], dtype=float)
+        P = float(case["delta"]) * fmat(case["P0"])
+        with quiet():
+            P_now = own_precision(lambda x: float(np.ravel(obj.logpdf(x))[0]), mean, self.dim)
+        if not np.allclose(P_now, P, rtol=1e-9, atol=1e-9 * max(1.0, np.abs(P).max())):
+            p.mismatch("density/" + gmrf_key(case), case, "quadratic form of the field's own log-density is not delta D^T D of the "
+                       "precision it was conditioned on", P, P_now)
+
+
+def sib_walk(ctx, ad, fmt, ops, probed=None):
+    """One behaviour of facet 5 on real objects: ONE conditional object, conditioned copies A and B kept alive, samples in the
+    order of the walk; every draw is judged against the specification's case of the sampled copy's OWN configuration.
+    Returns True when the walk was carried out (False: the library refused the conditional construction - observed)."""
+    wid = walk_id(ops)
+    order = "".join(o["who"] for o in ops if o["op"] == "sample")
+    label = ad.label + ("/fmt=%s" % fmt if fmt else "")
+    try:
+        with quiet():
+            O = ad.build(fmt)
+    except Exception as e:
+        _sib_observe(ctx, "siblings_conditional_construction_refused", "%s/cond=%s" % (ad.family, "+".join(sorted(ad.names))), e)
+        return False
+    # is this conditional construction supported at all?  Each configuration ALONE (own original, no sibling alive): a refusal
+    # here is an observation; once both work alone, every failure during the walk is a mismatch
+    for w in (("A", "B") if probed is None or (ad.label, fmt) not in probed else ()):
+        try:
+            with quiet():
+                X = ad.condition(ad.build(fmt), w, fmt)
+                X.sample(2, rng=np.random.RandomState(1))
+                ad.probe(X, w)
+        except Exception as e:
+            _sib_observe(ctx, "siblings_unsupported_when_alone", "%s/cond=%s" % (ad.family, "+".join(sorted(ad.names))), e)
+            return False
+    if probed is not None:
+        probed.add((ad.label, fmt))
+    live, k = {}, 0
+    for o in ops:
+        w = o["who"]
+        if o["op"] == "condition":
+            try:
+                with quiet():
+                    live[w] = ad.condition(O, w, fmt)
+            except Exception as e:
+                _sib_observe(ctx, "siblings_conditioning_refused", "%s/cond=%s" % (ad.family, "+".join(sorted(ad.names))), e)
+                return False
+        elif o["op"] == "original":
+            sib_original(ctx, O, label, ad.dim)
+        else:
+            k += 1
+            p = SigProxy(ctx, "/order=%s/walk=%s/at=%d%s/cond=%s" % (order, wid, k, w, "+".join(sorted(ad.names))), "siblings_" + ad.sub, label)
+            ad.sample(p, live[w], w, ad.case(w, ops, fmt), fmt, k)
+    for w in sorted(live):
+        p = SigProxy(ctx, "/order=%s/walk=%s/at=end%s/cond=%s" % (order, wid, w, "+".join(sorted(ad.names))), "siblings_" + ad.sub, label)
+        try:
+            ad.final(p, live[w], w, ad.case(w, ops, fmt), fmt)
+        except Exception as e:
+            p.mismatch("density_raises/" + label, ad.case(w, ops, fmt), "the density of a conditioned copy, which can be evaluated when the "
+                       "copy is alone, raises after the walk: %r" % (e,))
+    return True
+
+
+def _sib_adapter(sub, rc, n):
+    return {"wiring": SibWiring, "gauss": SibGauss, "gmrf": SibGmrf}[sub](rc, n)
+
+
+def run_siblings(ctx, recases, walks, extra, gauss_stride=1):
+    """recases: the Reassign cases of TLC (pairs of configurations); walks: the behaviours of facet 5; extra: number of walks
+    replayed per pair besides the canonical one (rotating through all emitted walks; Gaussian pairs: every gauss_stride-th
+    (pair, storage format) only)."""
+    by_id = {}
+    for wk in walks:
+        by_id[walk_id(wk["ops"])] = wk["ops"]
+    ids = sorted(by_id)
+    canon = [i for i in ids if i == SIB_CANONICAL or i.startswith(SIB_CANONICAL + ".")]     # (longer walks: the first continuation)
+    if not canon:
+        machinery("facet 5: TLC did not emit a walk beginning with %s" % SIB_CANONICAL)
+    canon = canon[0]
+    seen, skip = set(), set()
+    done = {}
+    fams = {}
+    used = set()
+    probed = set()
+    rot = npair = 0
+    with min_dim_sparse(2):
+        for rc in sorted(recases, key=lambda c: json.dumps([c["sub"], c["from"], c["order"]], sort_keys=True)):
+            sub = rc["sub"]
+            if sub == "gmrf":
+                st = _gmrf_variant_ok(rc["from"], skip)
+                if not st:
+                    continue
+            for n in range(1, len(rc["trail"]) + 1):
+                ad = _sib_adapter(sub, rc, n)
+                pk = (sub, ad.label)
+                if pk in seen:
+                    continue
+                seen.add(pk)
+                for fmt in ad.formats():
+                    chosen = [canon]
+                    npair += 1
+                    for _ in range(extra if (sub != "gauss" or npair % gauss_stride == 0) else 0):
+                        chosen.append(ids[rot % len(ids)])
+                        rot += 1
+                    for wid in dict.fromkeys(chosen):
+                        if sib_walk(ctx, ad, fmt, by_id[wid], probed):
+                            done[sub] = done.get(sub, 0) + 1
+                            fams.setdefault(ad.family, set()).add("replayed")
+                            used.add(wid)
+                        else:
+                            fams.setdefault(ad.family, set()).add("refused")
+    for sub in ("wiring", "gauss", "gmrf"):
+        if not done.get(sub):
+            machinery("vacuous: no Siblings behaviour of kind %s was replayed" % sub)
+    need = {"Gaussian", "Lognormal", "GMRF"} | {rc["from"]["family"] for rc in recases if rc["sub"] == "wiring"}
+    for f in sorted(need):
+        if not fams.get(f):
+            machinery("vacuous: family %s was neither replayed nor observed as refusing in the Siblings facet" % f)
+    ctx.observations["siblings_walks_replayed"] = done
+    ctx.observations["siblings_distinct_walks_used"] = "%d of %d emitted" % (len(used), len(ids))
+    ctx.observations["siblings_canonical_walk"] = canon
+    ctx.observations["siblings_families"] = {f: "+".join(sorted(v)) for f, v in sorted(fams.items())}
+    return sum(done.values())
+
+
+def _gmrf_variant_ok(frm, skip):
+    """is this wrap-multiplicity variant of the periodic operator the one of the field's own density (as in facet 1b)?"""
+    import cuqi
+    key0 = gmrf_key(frm)
+    if (key0, frm["wm"]) in skip:
+        return False
+    n, dim = frm["n"], frm["dim"]
+    try:
+        with quiet():
+            geom = cuqi.geometry.Continuous1D(n) if frm["pd"] == 1 else cuqi.geometry.Image2D((n, n))
+            d0 = cuqi.distribution.GMRF(np.array(frm["mean"], dtype=float), float(frm["delta"]), bc_type=frm["bc"], order=frm["order"], geometry=geom)
+            P_own = own_precision(lambda x: float(np.ravel(d0.logpdf(x))[0]), np.array(frm["mean"], dtype=float), dim)
+    except Exception:
+        skip.add((key0, frm["wm"]))
+        return False
+    P1 = float(frm["delta"]) * fmat(frm["P0"])
+    if not np.allclose(P_own, P1, rtol=1e-9, atol=1e-9 * max(1.0, np.abs(P1).max())):
+        skip.add((key0, frm["wm"]))
+        return False
+    return True
+
+
 # ----------------------------------------------------------------------------------------------- facet 3
 def _digest():
     """Value identifying the state of numpy's global random stream (compared for equality before / after a call)."""
@@ -1107,8 +1585,10 @@ def run_streams(ctx, behaviours, per_behaviour, label):
 
 # ------------------------------------------------------------------------------------------------- run
 EXTRA = ("DiffOps.tla",)
+NMAIN = 5         # deciding TLC runs (cases, stream, deep, reassign, siblings); the named deviations follow
 
-DEVIATIONS = [("Sampling.dev.stale_after_assign.cfg", "ReSampFresh"), ("Sampling.dev.dft_on_noncirculant.cfg", "DftLaw"), ("Sampling.dev.dft_sorted_eigs.cfg", "DftLaw"),
+DEVIATIONS = [("Sampling.dev.shared_derived.cfg", "SibOwnDraw"), ("Sampling.dev.dia_as_diagonal.cfg", "FsLaw"),
+              ("Sampling.dev.stale_after_assign.cfg", "ReSampFresh"), ("Sampling.dev.dft_on_noncirculant.cfg", "DftLaw"), ("Sampling.dev.dft_sorted_eigs.cfg", "DftLaw"),
               ("Sampling.dev.lower_as_upper.cfg", "GaussLaw"), ("Sampling.dev.ignores_rng.cfg", "GlobalUntouched"),
               ("Sampling.dev.ignores_rng_det.cfg", "Deterministic")]
 
@@ -1164,7 +1644,8 @@ def run(ctx):
     # the second stream deviation (same constant, other invariant) is run in the thorough tier only
     devs = [d for d in DEVIATIONS if thorough or d[0] != "Sampling.dev.ignores_rng_det.cfg"]
     jobs = [("Sampling.cases.%s.cfg" % ctx.tier, 8, False, "2g"), ("Sampling.stream.%s.cfg" % ctx.tier, 4, False, "2g"),
-            ("Sampling.deep.%s.cfg" % ctx.tier, 2, False, "1g"), ("Sampling.reassign.%s.cfg" % ctx.tier, 4, False, "2g")] \
+            ("Sampling.deep.%s.cfg" % ctx.tier, 2, False, "1g"), ("Sampling.reassign.%s.cfg" % ctx.tier, 4, False, "2g"),
+            ("Sampling.siblings.%s.cfg" % ctx.tier, 2, False, "1g")] \
         + [(cfg, 2, True, "1g") for cfg, _ in devs]
     results = tlc_jobs(ctx, jobs)
     try:
@@ -1176,7 +1657,7 @@ def run(ctx):
 
 def _run_with_results(ctx, results, devs, thorough):
     from cuqiverif import tlc as _tlc
-    res, res3, res4, res5 = results[:4]
+    res, res3, res4, res5, res6 = results[:NMAIN]
     # ---- model checking + case emission (facets 1, 2)
     ctx.model_must_hold(res, "Sampling/cases")
     cases = res.cases
@@ -1186,28 +1667,43 @@ def _run_with_results(ctx, results, devs, thorough):
     kinds = {}
     for c in cases:
         kinds.setdefault(c["kind"], []).append(c)
-    for k in ("gauss", "bigdiag", "gmrf", "wiring"):
+    for k in ("gauss", "gfs", "bigdiag", "gmrf", "wiring"):
         if res.ok and not kinds.get(k):
             machinery("vacuous: no %s case emitted" % k)
     # ---- named deviations: each must produce a counterexample to its invariant (non-vacuity, design-level explanation)
-    for (cfg, inv), r in zip(devs, results[4:]):
+    for (cfg, inv), r in zip(devs, results[NMAIN:]):
         _tlc.cleanup(r)
         if r.violated != inv:
             machinery("deviation run %s did not violate %s (got %r): invariant is vacuous" % (cfg, inv, r.violated))
     ctx.observations["deviation_runs"] = {cfg: inv for cfg, inv in devs}
     # ---- replay facets 1, 2
+    import time as _time
+    _t = [_time.time()]
+    wall = ctx.observations.setdefault("replay_wall_s", {})
+
+    def lap(name):
+        wall[name] = round(_time.time() - _t[0], 1)
+        _t[0] = _time.time()
     Ns = (1, 3)
     for c in kinds.get("gauss", []):
         run_gauss(ctx, c, Ns)
     for c in kinds.get("bigdiag", []):
         run_bigdiag(ctx, c)
+    lap("gauss+bigdiag")
+    cells = {}
+    for c in sorted(kinds.get("gfs", []), key=lambda c: gauss_sig(c)):
+        run_gfs(ctx, c, Ns, cells)
+    if res.ok:
+        check_fs_cells(ctx, cells)
+    lap("gfs")
     groups = _group_gmrf(cases)
     for k in sorted(groups):
         run_gmrf(ctx, groups[k], Ns)
     for c in kinds.get("wiring", []):
         run_wiring(ctx, c)
         run_wiring(ctx, c, use_global=True)       # no generator given: the default code path of every family
-    ctx.traces += len(kinds.get("gauss", [])) + len(kinds.get("bigdiag", [])) + len(groups) + len(kinds.get("wiring", []))
+    ctx.traces += len(kinds.get("gauss", [])) + len(kinds.get("gfs", [])) + len(kinds.get("bigdiag", [])) + len(groups) + len(kinds.get("wiring", []))
+    lap("gmrf+wiring")
     # ---- facet 4: one object, parameters assigned through the public attributes, sampled again
     ctx.model_must_hold(res5, "Sampling/reassign")
     recases = [c for c in res5.cases if c.get("kind") == "reassign"]
@@ -1215,10 +1711,22 @@ def _run_with_results(ctx, results, devs, thorough):
     if res5.ok and not recases:
         machinery("no behaviours emitted by Sampling (Reassign facet)")
     ctx.traces += run_reassign(ctx, recases)
+    lap("reassign")
+    # ---- facet 5: two conditioned copies of one conditional object, alive together, sampled in turn (pairs of facet 4)
+    ctx.model_must_hold(res6, "Sampling/siblings")
+    walks = [c for c in res6.cases if c.get("kind") == "sibwalk"]
+    _tlc.cleanup(res6)
+    if res6.ok and not walks:
+        machinery("no behaviours emitted by Sampling (Siblings facet)")
+    if walks and recases:
+        ctx.traces += run_siblings(ctx, recases, walks, extra=2 if thorough else 1, gauss_stride=1 if thorough else 2)
+        ctx.sample({"siblings": {"walk": ctx.observations["siblings_canonical_walk"], "pairs": "from / trail[n].expect of the Reassign cases",
+                                 "walks_emitted": len(walks)}})
     rcs = [c for c in recases if c["sub"] == "wiring" and c["from"]["family"] == "Cauchy" and c["from"]["dim"] == 2]
     if rcs:
         ctx.sample({"reassign": {"order": rcs[0]["order"], "from": rcs[0]["from"]["params"],
                                  "trail": [{"assign": t["assign"], "args": t["expect"]["args"]} for t in rcs[0]["trail"]]}})
+    lap("siblings")
     # ---- stream state machine
     ctx.model_must_hold(res3, "Sampling/stream")
     beh = res3.cases
@@ -1236,6 +1744,7 @@ def _run_with_results(ctx, results, devs, thorough):
     beh = [beh[i] for i in order]
     run_streams(ctx, beh, 2, "stream")
     run_streams(ctx, deep, 0 if thorough else 4, "deep")
+    lap("streams")
     # ---- evidence
     def pick(kind, pred=lambda c: True):
         for c in kinds.get(kind, []):
@@ -1250,15 +1759,21 @@ def _run_with_results(ctx, results, devs, thorough):
     if deep:
         ctx.sample({"behaviour": deep[len(deep) // 2]["steps"]})
     ctx.rule = ("cases = every configuration emitted by TLC from Sampling.tla (Gaussian form x shape x triangle x dim x scaling x mean "
-                "form x storage format; GMRF pd x n x bc x order x delta; family x dim x passing x N x lattice) and every behaviour of "
-                "the stream state machine up to the bounded length replayed on rotating families; distinct non-trivial = distinct "
-                "(configuration, storage format) resp. (behaviour, family) keys")
+                "form x storage format; Gaussian form x structure x storage format x threshold side; GMRF pd x n x bc x order x delta; "
+                "family x dim x passing x N x lattice), every Reassign behaviour, every Reassign pair x {walk A-O-B-A + rotating walks} of "
+                "the Siblings behaviours and every behaviour of the stream state machine up to the bounded length replayed on rotating "
+                "families; distinct non-trivial = distinct (configuration, storage format) resp. (pair, walk, step) resp. (behaviour, "
+                "family) keys")
     ctx.exhaustive = True
     ctx.assumptions += ["law of numpy / scipy base generators (normal, gamma, laplace, uniform, beta, invgamma, cauchy) is trusted",
                         "ModifiedHalfNormal acceptance envelopes not modelled (wiring of parameters and stream behaviour only)",
                         "Gaussian-type samplers request standard-normal arrays of shape (m, N) (otherwise exit 2)",
                         "bounded sizes (cfg); cuqi.config.MIN_DIM_SPARSE lowered to 2 for dims 2-3, real threshold for diagonal forms",
-                        "jitter sqrt(eps) of periodic/neumann GMRF factorisations tolerated (1e-6 relative)"]
+                        "jitter sqrt(eps) of periodic/neumann GMRF factorisations tolerated (1e-6 relative)",
+                        "facet 1c: a storage format / structure / threshold side the library refuses (exception at construction, density or "
+                        "first sample) is observed, not judged; a covariance / precision is symmetric (no triangular structure)",
+                        "facet 5: a conditional construction that does not work for ONE conditioned copy alone (Lognormal with a scalar mean and "
+                        "callable covariance, ModifiedHalfNormal, 2-D periodic GMRF) is observed, not judged"]
 
 
 def replay(ctx, case):
@@ -1267,6 +1782,12 @@ def replay(ctx, case):
         return run(ctx)
     if kind == "gauss":
         return run_gauss(ctx, case)
+    if kind == "gfs":
+        return run_gfs(ctx, case)
+    if kind == "siblings_step":
+        sb = case["sib"]
+        with min_dim_sparse(2):
+            return sib_walk(ctx, _sib_adapter(sb["sub"], sb["rc"], sb["n"]), sb["fmt"], sb["walk"])
     if kind == "bigdiag":
         return run_bigdiag(ctx, case)
     if kind == "gmrf_group":
